@@ -192,7 +192,10 @@ Section Bdf.
           else (d, h, neq, lucur) in
         let h_signed := direction * h in
         let x_new := x + h_signed in
-        let over := (direction * (x_new - xend)) >? zero O in
+        (* ... or ends beside xend: the rest is below the resolution of x_new (fix for F30) *)
+        let rest := xend - x_new in
+        let beside := negb (eqb O rest (zero O)) && eqb O (x_new + L L0_1 * rest) x_new in
+        let over := ((direction * (x_new - xend)) >? zero O) || beside in
         let step_to_end := abs O (xend - x) in
         if over && eqb O step_to_end (zero O) then
           inr (mkR Success (direction * h) (s_stats s) x y (s_log s) (s_jaclog s) (s_cb s))
